@@ -22,6 +22,7 @@ import (
 	"context"
 	"encoding/json"
 	"errors"
+	"sync"
 	"time"
 
 	"github.com/bradfitz/gomemcache/memcache"
@@ -48,6 +49,9 @@ type SessionStoreImpl[T StringOrBytes] struct {
 	ttl        time.Duration
 	prefixes   []string
 	db         SessionDatabase
+	// mux makes the read-modify-write operations (GetAndDelete, PutIfAbsent) atomic with respect to each other.
+	// It is shared by all stores of a SessionDatabase and only guards against concurrent use within this process.
+	mux *sync.Mutex
 }
 
 func (s SessionStoreImpl[T]) Delete(key string) error {
@@ -102,10 +106,30 @@ func (s SessionStoreImpl[T]) Put(key string, value interface{}, options ...Sessi
 	return s.underlying.Set(context.Background(), s.db.getFullKey(s.prefixes, key), T(bytes), store.WithExpiration(opts.ttl))
 }
 func (s SessionStoreImpl[T]) GetAndDelete(key string, target interface{}) error {
+	// Get and Delete must not interleave with another GetAndDelete for the same key: the entry may be burned only once.
+	s.mux.Lock()
+	defer s.mux.Unlock()
 	if err := s.Get(key, target); err != nil {
 		return err
 	}
 	return s.underlying.Delete(context.Background(), s.db.getFullKey(s.prefixes, key))
+}
+
+func (s SessionStoreImpl[T]) PutIfAbsent(key string, value interface{}, options ...SessionOption) (bool, error) {
+	// the existence check and Put must not interleave with another PutIfAbsent for the same key.
+	s.mux.Lock()
+	defer s.mux.Unlock()
+	val, err := s.underlying.Get(context.Background(), s.db.getFullKey(s.prefixes, key))
+	if err == nil && len(val) > 0 {
+		return false, nil
+	}
+	if err != nil && !errors.Is(err, store.NotFound{}) && !errors.Is(err, memcache.ErrCacheMiss) {
+		return false, err
+	}
+	if err = s.Put(key, value, options...); err != nil {
+		return false, err
+	}
+	return true, nil
 }
 
 func (s SessionStoreImpl[T]) defaultOptions() sessionOptions {
